@@ -6,12 +6,15 @@ package main
 
 import (
 	"bytes"
+	"encoding/binary"
 	"encoding/hex"
 	"fmt"
 	"regexp"
 	"sync"
 	"sync/atomic"
 
+	"github.com/datastax/go-cassandra-native-protocol/compression/lz4"
+	"github.com/datastax/go-cassandra-native-protocol/compression/snappy"
 	"github.com/datastax/go-cassandra-native-protocol/frame"
 	"github.com/datastax/go-cassandra-native-protocol/primitive"
 
@@ -20,6 +23,7 @@ import (
 	"verif/internal/gen"
 	"verif/internal/mon"
 	"verif/internal/ref"
+	"verif/internal/segref"
 )
 
 func main() { mon.Main("C02", run) }
@@ -111,11 +115,95 @@ func run(c *mon.Ctx) {
 	headerTable(c)
 }
 
+// compressed judges the body compression formats of spec §5 at frame level, for legacy-framed versions:
+// the library's LZ4 body must be a 4-byte big-endian uncompressed length followed by an LZ4 block, its Snappy
+// body a Snappy block, each expanding (under the independent decoders of internal/segref) to the body the
+// reference decoder accepts; and a body compressed by the independent LZ4 encoder must be accepted by the library.
+func compressed(c *mon.Ctx, cs gen.Case, id string) {
+	a := cs.Frame
+	if a.Version == ref.V5 || a.Msg.Opcode() == ref.OpStartup {
+		return
+	}
+	for _, comp := range []string{"lz4", "snappy"} {
+		codec := compCodecs[comp]
+		f := bridge.ToLib(a, true, bridge.NewVariant(mon.NewRand(c.Seed, hash(id)^0xC0)))
+		var buf bytes.Buffer
+		if err := codec.EncodeFrame(f, &buf); err != nil {
+			continue // C01's business
+		}
+		lb := buf.Bytes()
+		c.Eval(1)
+		d := detail{ID: id, Dir: "lib->ref/" + comp, Frame: lazyFrame{a}, Seed: c.Seed}
+		decompress := func(body []byte) ([]byte, error) {
+			if comp == "snappy" {
+				out, _, err := segref.SnappyDecodeBlock(body, 1<<28)
+				return out, err
+			}
+			if len(body) < 4 {
+				return nil, fmt.Errorf("LZ4 body shorter than its length prefix")
+			}
+			n := int(binary.BigEndian.Uint32(body[:4]))
+			if n > 1<<28 {
+				return nil, fmt.Errorf("LZ4 length prefix %d", n)
+			}
+			out, _, err := segref.LZ4DecodeBlock(body[4:], n)
+			if err == nil && len(out) != n {
+				err = fmt.Errorf("LZ4 length prefix says %d, block expands to %d", n, len(out))
+			}
+			return out, err
+		}
+		a2, h, err := ref.DecodeFrame(lb, decompress)
+		switch {
+		case err != nil:
+			d.Err, d.LibHex = err.Error(), hexCap(lb)
+			c.Violation("compressed/"+comp+"/not-spec-conformant/"+errClass(err.Error()), d)
+		case h.Flags != a.Flags()|ref.FlagCompressed || !ref.Equal(a, ref.Norm(a2)):
+			d.LibHex, d.Diff = hexCap(lb), ref.Diff(a, a2)
+			c.Violation("compressed/"+comp+"/denotes-another-frame", d)
+		default:
+			c.Count("compressed_lib_bytes_accepted/"+comp, 1)
+			c.Distinct(cs.Sig + "|" + comp)
+		}
+		if comp == "lz4" {
+			rb, err := ref.EncodeFrameCompressed(a, ref.EncOpts{}, func(body []byte) []byte {
+				out := binary.BigEndian.AppendUint32(nil, uint32(len(body)))
+				return append(out, segref.LZ4EncodeBlock(body)...)
+			})
+			if err != nil {
+				continue
+			}
+			c.Eval(1)
+			d := detail{ID: id, Dir: "ref->lib/lz4", Frame: lazyFrame{a}, Seed: c.Seed}
+			f2, err := codec.DecodeFrame(bytes.NewReader(rb))
+			if err != nil {
+				d.Err, d.RefHex = err.Error(), hexCap(rb)
+				c.Violation("compressed/lz4/rejects-spec-bytes/"+errClass(err.Error()), d)
+				continue
+			}
+			a3, fl, err := bridge.FromLib(f2)
+			if err != nil || fl != a.Flags()|ref.FlagCompressed || !ref.Equal(a, a3) {
+				d.RefHex, d.Diff = hexCap(rb), ref.Diff(a, a3)
+				c.Violation("compressed/lz4/decodes-to-another-frame", d)
+				continue
+			}
+			c.Count("compressed_reference_bytes_accepted/lz4", 1)
+		}
+	}
+}
+
+var compCodecs = map[string]frame.RawCodec{
+	"lz4":    frame.NewRawCodecWithCompression(lz4.Compressor{}),
+	"snappy": frame.NewRawCodecWithCompression(snappy.Compressor{}),
+}
+
 func both(c *mon.Ctx, cs gen.Case, id string) {
 	if c.Saturated() {
 		return // the verdict is decided; see mon.Saturated
 	}
 	a := cs.Frame
+	if hash(id)%4 == 0 {
+		compressed(c, cs, id)
+	}
 	// ---- (a) library encoder judged by the reference decoder ---------------------------------
 	vr := bridge.NewVariant(mon.NewRand(c.Seed, hash(id)))
 	f := bridge.ToLib(a, false, vr)
